@@ -109,6 +109,9 @@ def handleIsolate (toks : List String) : String :=
     its scheme names -/
 def handleRecon (toks : List String) : String :=
   match toks with
+  | [carrier, _, "swap"] =>
+      -- a TLS upstream never completes a session with an endpoint that has turned to plain text
+      if carrier = "tcptls" ∨ carrier = "wss" then "ok swapped=refused" else "bad-op"
   | [carrier, _] => "ok all-" ++ (if carrier = "tcptls" ∨ carrier = "wss" then "tls" else "plain") ++ "=true"
   | _ => "bad-op"
 
